@@ -71,7 +71,7 @@ def _limited_once(fn, seconds):
 
 def limited(make_fn):
     """`make_fn()` returns the call to make (on fresh copies of its inputs); it is made under the
-    CPU-time limit.  If the limit is exceeded the call is repeated once with four times the
+    CPU-time limit.  If the limit is exceeded the call is repeated once with twice the
     allowance and the cyclic garbage collector switched off (with some GB of retained IRs a few
     full collections can eat seconds of CPU time inside one call); only if that does not come
     back either the outcome is a HangError."""
@@ -84,7 +84,7 @@ def limited(make_fn):
     gc.collect()
     gc.disable()
     try:
-        return _limited_once(make_fn(), 4 * CPU_LIMIT)
+        return _limited_once(make_fn(), 2 * CPU_LIMIT)
     finally:
         if was:
             gc.enable()
